@@ -85,6 +85,10 @@ def finish(prop, tier, seed, contracts, results, extra, t0, write_baseline=False
     for o in obligations:
         if o["status"] == "unsat" or o["status"] == "ok":
             continue
+        if o["kind"] == "reach":
+            # a construct outside the model on a path not proved infeasible: undecided, never a violation
+            undecided.append(o)
+            continue
         if o["status"] == "sat":
             c = by_qual.get(o.get("function"))
             rep = {"property": prop, "obligation": o["name"], "kind": o["kind"], "function": o.get("function"),
@@ -252,7 +256,7 @@ def finish(prop, tier, seed, contracts, results, extra, t0, write_baseline=False
 def _run_witness_cmd(cmd):
     import subprocess
     try:
-        r = subprocess.run(cmd, shell=True, capture_output=True, text=True, timeout=120, cwd=ROOT)
+        r = subprocess.run(cmd, shell=True, capture_output=True, text=True, timeout=900, cwd=ROOT)
         return r.returncode != 0
     except Exception:
         return None
